@@ -28,6 +28,9 @@ func CheckC17(run *Run) {
 			reqs = append(reqs, r)
 		}
 	}
+	// route isolation (server) and call sequences (client): catalogues of their own, see c17_families.go
+	isoReq, seqReq := RouteIsolationCatalogue(), ClientHistoryCatalogue()
+	reqs = append(reqs, isoReq, seqReq)
 	rng := rand.New(rand.NewSource(run.Seed + 1717))
 	multisets, size := 6, 60
 	if run.Tier == "thorough" {
@@ -58,7 +61,7 @@ func CheckC17(run *Run) {
 	}
 	var batches []*batch
 	for i, r := range reqs {
-		if !s.InRunner[r.ID] {
+		if !s.InRunner[r.ID] || r == isoReq || r == seqReq {
 			continue
 		}
 		g := s.Gens[i]
@@ -238,6 +241,27 @@ func CheckC17(run *Run) {
 		cr.Pred = map[string]any{"calls_differing_from_isolated": 0, "validator_instances": true}
 		cr.Compare()
 		run.Results = append(run.Results, cr)
+	}
+	// per-route configuration isolation; history (in)dependence of shared clients and package-level state
+	for _, r := range []*Request{isoReq, seqReq} {
+		if !s.InRunner[r.ID] {
+			out := "a Go plugin failed on it"
+			if v := s.Verdict[r.ID]; v != nil {
+				out = v.Output
+			}
+			run.BuildFailure(fmt.Errorf("the emitted Go code of catalogue %s does not build: %s", r.ID, out))
+		}
+	}
+	stamp(run, "concurrent multisets done")
+	run.Results = append(run.Results, c17RouteIsolation(run, s, isoReq)...)
+	run.Results = append(run.Results, c17RouteSequences(run, s, isoReq, rand.New(rand.NewSource(run.Seed+1717171)))...)
+	stamp(run, "route isolation done")
+	seqResults, seqStderr := c17Sequences(run, s, seqReq, s.ByID[seqReq.ID], rand.New(rand.NewSource(run.Seed+171717)))
+	run.Results = append(run.Results, seqResults...)
+	stamp(run, "call sequences done")
+	if n := strings.Count(seqStderr, "WARNING: DATA RACE"); n > 0 {
+		races += n
+		stderr += seqStderr
 	}
 	rc := &CaseResult{ID: "race-detector", Family: "race-detector", Input: map[string]any{"multisets": len(batches), "calls": len(iso)},
 		Obs: map[string]any{"data_races": races}, Pred: map[string]any{"data_races": 0}, OracleHolds: races == 0, NonTrivial: true, Features: []string{"race"}}
